@@ -4,6 +4,7 @@ import (
 	"context"
 	"fmt"
 	"net"
+	"net/netip"
 	"strconv"
 	"strings"
 	"testing"
@@ -13,6 +14,7 @@ import (
 	"github.com/anacrolix/dht/v2"
 	"github.com/anacrolix/dht/v2/bep44"
 	"github.com/anacrolix/dht/v2/int160"
+	"github.com/anacrolix/dht/v2/transactions"
 
 	"verif/explore"
 	"verif/sim"
@@ -25,6 +27,7 @@ var (
 	c07A2 = sim.UDP4(61, 1, 1, 1, 20000) // same IP, port whose decimal string extends A's
 	c07B  = sim.UDP4(62, 2, 2, 2, 2000)
 	c07A6 = &net.UDPAddr{IP: net.ParseIP("2001:db8::61"), Port: 2000}
+	c07AA = sim.UDP4(161, 1, 1, 1, 2000) // its text ends with A's text
 )
 
 var c07Scenarios = map[string][]string{
@@ -34,8 +37,9 @@ var c07Scenarios = map[string][]string{
 	"ports":    {"ping@A", "ping@A2", "find@B"},
 	"threeA":   {"ping@A", "get@A", "ping@A"},
 	"families": {"ping@A", "ping@A6"},
+	"suffix":   {"ping@AA", "ping@A"},
 }
-var c07ScenarioOrder = []string{"one", "twosame", "twodiff", "ports", "threeA", "families"}
+var c07ScenarioOrder = []string{"one", "twosame", "twodiff", "ports", "threeA", "families", "suffix"}
 
 func c07Addr(n string) *net.UDPAddr {
 	switch n {
@@ -47,6 +51,8 @@ func c07Addr(n string) *net.UDPAddr {
 		return c07B
 	case "A6":
 		return c07A6
+	case "AA":
+		return c07AA
 	}
 	return nil
 }
@@ -64,7 +70,7 @@ type c07Query struct {
 func c07Letters(n int) (ls []string) {
 	for i := 0; i < n; i++ {
 		s := strconv.Itoa(i)
-		ls = append(ls, "true:"+s, "err:"+s, "adj:"+s, "ext:"+s, "pre:"+s, "emp:"+s, "port:"+s, "ip:"+s, "long:"+s, "zz:"+s)
+		ls = append(ls, "true:"+s, "err:"+s, "adj:"+s, "ext:"+s, "pre:"+s, "emp:"+s, "port:"+s, "ip:"+s, "long:"+s, "zz:"+s, "split:"+s, "unsplit:"+s)
 		for j := 0; j < n; j++ {
 			if i != j {
 				ls = append(ls, "cross:"+s+":"+strconv.Itoa(j))
@@ -179,6 +185,24 @@ func runC07(t *testing.T, c explore.Case) (res explore.Result) {
 			case "cross":
 				j, _ := strconv.Atoi(f[2])
 				tid = qs[j].tid
+			case "split":
+				// same concatenation t||address, split at another place: leading characters of the
+				// address text move into t, if what remains is still an address
+				d := q.dest.String()
+				for k := 1; k < len(d); k++ {
+					if ap, err := netip.ParseAddrPort(d[k:]); err == nil {
+						from = net.UDPAddrFromAddrPort(ap)
+						tid = q.tid + d[:k]
+						break
+					}
+				}
+			case "unsplit":
+				// the last byte of t moves to the front of the address text
+				d := q.tid[len(q.tid)-1:] + q.dest.String()
+				if ap, err := netip.ParseAddrPort(d); err == nil && len(q.tid) > 1 {
+					from = net.UDPAddrFromAddrPort(ap)
+					tid = q.tid[:len(q.tid)-1]
+				}
 			}
 			var b []byte
 			switch yv {
@@ -273,7 +297,65 @@ func runC07(t *testing.T, c explore.Case) (res explore.Result) {
 	return
 }
 
-func init() { runners["C07"] = runC07 }
+// runC07Wrap: a query stays outstanding while exactly n-1 further transaction IDs are issued (n in
+// the history); the n-th later query must not share its ID. IDs are drawn from the process-wide
+// issuer the Server uses, so the intermediate "queries" are replaced by direct Issue() calls.
+func runC07Wrap(t *testing.T, c explore.Case) (res explore.Result) {
+	p := Bubble(t, func() {
+		y := NewSys(func(cfg *dht.ServerConfig) {
+			cfg.QueryResendDelay = func() time.Duration { return time.Hour }
+		})
+		defer y.Close()
+		tidOf := func(dest *net.UDPAddr) string {
+			before := y.Conn.NumWrites()
+			go y.S.Ping(dest)
+			synctest.Wait()
+			for _, o := range DecodeWrites(y.Conn.WritesSince(before)) {
+				if o.Y() == "q" && o.To.String() == dest.String() {
+					return o.T()
+				}
+			}
+			return "?"
+		}
+		first := tidOf(c07A)
+		issued := 0
+		for _, l := range c.H {
+			n, _ := strconv.Atoi(l)
+			for issued < n-1 {
+				transactions.DefaultIdIssuer.Issue()
+				issued++
+			}
+			tid := tidOf(c07B)
+			issued++
+			res.Steps++
+			if tid == first {
+				res.Viol = fmt.Sprintf("shared-tid: a query outstanding to %v and the %d-th query issued after it (to %v) both use t=%q", c07A, n, c07B, tid)
+				return
+			}
+			// the first query is still outstanding and must still complete only by its own reply
+			y.Deliver(c07B, sim.Reply(tid, sim.M{"id": sim.IDStr(peerID)}))
+		}
+		if st := y.S.Stats(); st.OutstandingTransactions != 1 {
+			res.Viol = fmt.Sprintf("outstanding-count: expected only the first query to be pending, Stats reports %d", st.OutstandingTransactions)
+		}
+		time.Sleep(3 * time.Hour) // let the first query time out
+		synctest.Wait()
+	})
+	if p != "" && res.Viol == "" {
+		res.Viol = "panic: " + p
+	}
+	res.Outcome = "wrap-ok"
+	return
+}
+
+func init() {
+	runners["C07"] = func(t *testing.T, c explore.Case) explore.Result {
+		if c.Unit == "wrap" {
+			return runC07Wrap(t, c)
+		}
+		return runC07(t, c)
+	}
+}
 
 func TestC07(t *testing.T) {
 	w := explore.NewWorker("C07")
@@ -285,6 +367,13 @@ func TestC07(t *testing.T) {
 	w.Bound("depth", depth)
 	w.SetRule("6 scenarios of 1-3 concurrently outstanding queries (same destination twice, different destinations, same IP with ports 2000/20000, ping+get+ping to one address, IPv4+IPv6); BFS over datagram sequences whose letters are built from the observed transaction ids: own reply, own error, unknown y, adjacent / extended / prefixed / truncated / empty t, right t from another port (decimal prefix of the real one) or another IP, another pending query's t; each reply carries a unique marker; reference = the pending query with exactly this (address, t); states deduplicated by per-query status; every sequence ends with the remaining queries timing out")
 	idx := 0
+	if w.Mine(idx) {
+		w.BeginUnit(idx, "wrap")
+		c := explore.Case{Prop: "C07", Unit: "wrap", H: []string{"128", "256", "16384", "65536", "16777216"}}
+		w.Journal(c)
+		w.Record(c, runC07Wrap(t, c))
+	}
+	idx++
 	for _, sn := range c07ScenarioOrder {
 		alpha := c07Letters(len(c07Scenarios[sn]))
 		for _, first := range alpha {
